@@ -17,7 +17,7 @@ CHECKS = {
   design="DESIGN.md §5 C02, Appendix D"),
  "C03": dict(
   technique="runtime monitor: panic capture + logical-step budgets (verif_hooks tick counters, instruction/data budgets enforced at the data-trait boundary) over bounded-exhaustive token-class sequences, soups and scaling families; witness delta-minimisation",
-  text="Every sequence up to length 5 (6 thorough) over four focused 10-token alphabets (conditionals, blocks and lists, expressions and apply forms, separators), every sequence of 33 token classes up to length 3 (4 thorough, 5 without fillers) with gap fillers, random token soups, character soups and literal soups (char-list / byte-list / number tokens assembled from valid, boundary and malformed escape, code-point and digit fragments) and 14 scaling families up to 4096 (16384) repetitions are pushed through lex, parse and build into both stores; the monitor demands Ok or Err from each stage, no unwinding, at most 64(n+4)^3 loop iterations per stage and at most 16(n+4) instructions / 64(n+4)+4L data cells for an n-token input. The repository's own tests/scripts/*.garnish files (whole, and cut into prefixes / suffixes) are part of the corpus.",
+  text="Every sequence up to length 5 (6 thorough) over five focused alphabets of 10-12 tokens (conditionals, blocks and lists, expressions and apply forms, separators, identifier applications), every sequence of 33 token classes up to length 3 (4 thorough, 5 without fillers) with gap fillers, random token soups, character soups and literal soups (char-list / byte-list / number tokens assembled from valid, boundary and malformed escape, code-point and digit fragments) and 14 scaling families up to 4096 (16384) repetitions are pushed through lex, parse and build into both stores; the monitor demands Ok or Err from each stage, no unwinding, at most 64(n+4)^3 loop iterations per stage and at most 16(n+4) instructions / 64(n+4)+4L data cells for an n-token input. The repository's own tests/scripts/*.garnish files (whole, and cut into prefixes / suffixes) are part of the corpus.",
   note="termination/cost decided on logical steps against a fixed cubic bound; aborts (stack overflow, OOM) are caught by the driver's crash path",
   design="DESIGN.md §5 C03, Appendix B"),
  "C04": dict(
